@@ -13,6 +13,13 @@ def check(run):
         units = callpath.build_units(run, pols, shapes, ndebug=nd)
         for u in units:
             walk.check_unit(run, u, r)
+    if run.tier == "thorough":
+        from .. import irq
+        n = 0
+        rus = callpath.repo_units(run)
+        for u in rus:
+            n += walk.check_module_generic(run, irq.Module(u["path"]), r, u["file"])
+        run.units.append({"unit": "repository units (compile database)", "count": len(rus), "method_instantiations": n})
     from .. import crules
     r2, r3 = "C01-order", "C01-cells"
     run.rule(r2, "is_more_specific is the documented per-position decision table over {equal, derived, base, unrelated}", floor=3)
